@@ -132,6 +132,8 @@ def run(ctx):
         lines = E.run_impl(exe, enc, cfg=["contexts/factory:" + fac], env=env, prefix=prefix)
         for p, l, r in zip(progs, lines, ref):
             dist["runs"] += 1
+            if not l.startswith("ok ") and not r.startswith("ok "):
+                continue        # the simulator aborts under both layouts: how it dies is not an observable simulation result
             if l != r:
                 ctx.fail("layout-dependent-" + diff_kind(l, r),
                          "layout '%s' gives\n   %s\nthe reference run (ASLR on, raw factory, glibc allocator) gives\n   %s\nprogram %s"
